@@ -17,7 +17,7 @@ the State API is a small executable model in which updDiscreteVariable of the Dy
 parameter variable does NOT invalidate the Position-stage lazy cache entry.
 
 run(ctx) adds units `gravity.*` and returns a replayer."""
-import os, re
+import os, re, time
 import vlib
 from vlib import *
 from extract import *
@@ -301,7 +301,7 @@ PINNED_HITS = {
     "Force::Gravity::getPotentialEnergy": 3,
     "Force::Gravity::getBodyForces": 4,
     "Force::Gravity::getBodyForce": 2,
-    "Force::Gravity::setBodyIsExcluded": 13,
+    "Force::Gravity::setBodyIsExcluded": 14,
     "Force::Gravity::setGravityVector": 16,
     "Force::Gravity::setDownDirection": 8,
     "Force::Gravity::setMagnitude": 9,
@@ -420,12 +420,16 @@ def run(ctx, workers=4):
         ctx.undecide("extraction (gravity caching): %s" % e)
         return None
     jobs = []
-    for d in units(unit_c, ctx.tier):
+    heavy = ["realizeTopology", "lemma.any_setter_then_get", "ForceCache.allocate", "ensureForceCacheValid", "lemma.exclude_zero_reinclude", "lemma.zero_exclude_restore_include", "getBodyForces"]
+    rank = lambda d: heavy.index(d["name"][len("gravity."):]) if d["name"][len("gravity."):] in heavy else len(heavy)
+    for d in sorted(units(unit_c, ctx.tier), key=rank):      # longest first: better packing on the 4 workers
         jobs.append(lambda d=d: cbmc_unit(ctx, d["name"], [unit_c], d["h"], enforce=d["enf"], replace=d["repl"], loop_contracts=d["loops"],
                                           cbmc_args=ARGS, cc_args=d["cc"], require_props=d["req"], min_obligations=d["minob"],
                                           function=d["fn"], timeout=300, cex_vars=CEX_VARS))
     jobs.append(lambda: cover_unit(ctx, "gravity.cover", [unit_c], "h_cover", cc_args=["-DCOVER_ONLY"], expect_min=9, function="INV / contract preconditions"))
+    t0 = time.time()
     parallel(jobs, workers=workers)
+    ctx.extra["gravity_part"] = dict(units=len(jobs), wall_s=round(time.time() - t0, 1), workers=workers)
     ctx.assume("Gravity caching unit: the floating-point VALUE of a body force / of the potential energy is abstracted by a tagged value "
                "{ZERO | NAN | GRAVITY(body, g, d)} resp. a tagged sum recording emptiness and the ghost body's term with its (g, d, z); the per-body float computation "
                "of ensureForceCacheValid (mass properties, pose, m*gravity, moment, PE term) is dropped after checking that it reads nothing but mbx, gravity, state")
